@@ -52,8 +52,11 @@ def gen_script(rng: Rng, tag: str) -> dict:
         f"K0 = {rng.choice(['2.5', '0.5', '3.0', '-1.25'])}",
         f"KARR = np.array([{rng.choice(['1.0', '0.25', '4.0'])}], dtype=np.float32)",
         f"NITER = {rng.randint(1, 4)}",
+        f"TCONST = make_tensor('tc', TensorProto.FLOAT, [2], [{rng.choice(['1.0, 2.0', '0.5, -0.5'])}])",
+        f"FLOATS = [{rng.choice(['1.0, 3.0', '2.0', '0.25, 0.5, 0.75'])}]",
         "",
     ]
+    use_module_consts = rng.chance(0.35)
     use_helper = rng.chance(0.5)
     if use_helper:
         # helpers live in a small set of custom domains at different versions: Opset objects are
@@ -102,6 +105,13 @@ def gen_script(rng: Rng, tag: str) -> dict:
                 "",
             ]
             mids.append(mid)
+    # a helper with an int attribute with a default and a float attribute WITHOUT default, and a docstring
+    int_helper = None
+    if rng.chance(0.25):
+        int_helper = f"iattr_{tag}"
+        lines += ["@script()", f"def iattr_{tag}(p: FLOAT['N'], gain: float, axis: int = {rng.choice([0, -1])}) -> FLOAT['N']:",
+                  f'    """{rng.choice(["Softmax with gain.", "Helper: scaled softmax along axis."])}"""',
+                  "    return op.Mul(op.Softmax(p, axis=axis), gain)", ""]
     # a helper with several attribute parameters (attribute order / defaults reach the FunctionProto)
     attr_helper = None
     if rng.chance(0.3):
@@ -123,6 +133,11 @@ def gen_script(rng: Rng, tag: str) -> dict:
     for j, mid in enumerate(mids):
         tgt = vs[j % len(vs)]
         body.append(f"{ind}{tgt} = {mid}({tgt}, {rng.choice(['x', 'y'])})")
+    if int_helper is not None:
+        body.append(f"{ind}{vs[0]} = {int_helper}({vs[0]}, gain={rng.choice(['2.0', '0.5'])}{rng.choice(['', ', axis=0', ', axis=-1'])})")
+    if use_module_consts:
+        body.append(f"{ind}{vs[-1]} = op.Add({vs[-1]}, op.ReduceSum(op.Constant(value=TCONST), keepdims=0))")
+        body.append(f"{ind}{vs[0]} = op.Add({vs[0]}, op.ReduceSum(op.Constant(value_floats=FLOATS), keepdims=0))")
     if attr_helper is not None:
         hname, anames = attr_helper
         given = rng.sample(anames, rng.randint(0, len(anames)))
@@ -197,6 +212,8 @@ def gen_script(rng: Rng, tag: str) -> dict:
     ret = f"op.Identity({vs[0]})"
     for v in vs[1:]:
         ret = f"op.Add({ret}, {v})"
+    if rng.chance(0.3):
+        body.insert(0, f'{ind}"""{rng.choice(["Generated model function.", "Main entry: combines the carried variables."])}"""')
     lines += [dec, f"def {fname}(x: FLOAT['N'], y: FLOAT['N']) -> FLOAT['N']:"] + body + [f"{ind}return {ret}", ""]
     return {"src": "\n".join(lines), "fns": [fname], "tag": tag}
 
